@@ -59,7 +59,7 @@ HAND = [
 ]
 
 
-def build(rng, tier):
+def build(rng, tier, seed=0):
     worlds = []
     for f in load_findings(PROP):
         w = f.get("witness") or {}
@@ -70,8 +70,13 @@ def build(rng, tier):
                                       "witness_of": f["id"] if f.get("status") == "open" else None}]})
     worlds.append({"domain_text": C5.HAND_DOMAIN, "source": "hand",
                    "cases": [{"text": t, "kind": "hand-" + k, "klass": kl, "nontrivial": True} for k, t, kl in HAND]})
+    # one ProblemExporter object, one source path and one export path for a sequence of problems (long, short, same size
+    # with other content, empty, long again); every third generated world below is run that way too
+    sq = C5.same_path_world()
+    worlds.append({"domain_text": sq["domain_text"], "source": "hand", "reuse": True,
+                   "cases": [{"text": c["text"], "kind": "sequence-" + c["kind"], "klass": None, "nontrivial": True} for c in sq["cases"]]})
     n_worlds = 70 if tier == "quick" else 400
-    for _ in range(n_worlds):
+    for wi in range(n_worlds):
         w = C5.gen_domain(rng)
         dtext = G.render(w.domain_tree(C5.domain_name(w)), rng, noise=False)
         cases = []
@@ -86,7 +91,15 @@ def build(rng, tier):
                           + ("-twin-numeric-goals-" + desc["twins"] if desc.get("twins") else ""),
                           "klass": "D07" if rep else None,
                           "nontrivial": len(desc["init"]) + len(desc["goal"]) >= 2, "desc": desc})
-        worlds.append({"domain_text": dtext, "cases": cases, "source": "generated"})
+        worlds.append({"domain_text": dtext, "cases": cases, "source": "generated", "reuse": wi % 3 == 0})
+    # initial fluents repeating two or three different arguments, each problem under several PYTHONHASHSEEDs (the order of
+    # repeating_variables decides the exported text); under the last hash seed with one exporter object and one path
+    seeds = C5.hash_seeds(seed, tier)
+    for w in C5.under_hash_seeds(C5.multi_repeat_worlds(seed, tier), seeds):
+        for c in w["cases"]:
+            c.pop("expect", None)
+        w["reuse"] = w["hashseed"] == seeds[-1]
+        worlds.append(w)
     fw, n_total, n_skipped = C5.fixture_worlds(tier)
     for w in fw:
         for c in w["cases"]:
@@ -126,13 +139,15 @@ def run(args):
     if args.replay:
         worlds = [json.load(open(args.replay))["input"]["world"]]
     else:
-        worlds, n_total, n_skipped = build(rng, args.tier)
+        worlds, n_total, n_skipped = build(rng, args.tier, args.seed)
     jobs = []
     for w in worlds:
         job = {"op": "c09.world", "problems": [({"path": c["path"]} if "path" in c else c["text"]) for c in w["cases"]]}
         job.update({"domain_path": w["domain_path"]} if "domain_path" in w else {"domain_text": w["domain_text"]})
+        if w.get("reuse"):
+            job["reuse"] = True
         jobs.append(job)
-    results = run_impl(jobs, hashseed=args.seed % 5)
+    results = C5.run_grouped(worlds, jobs, args.seed % 5)
     cases, lits, units = [], [], []
     dist, outcomes = {}, {"round-trip completed": 0, "original rejected": 0, "round trip raised": 0}
     repr_failures, domain_failures = [], []
@@ -143,7 +158,7 @@ def run(args):
             domain_failures.append({"world": w.get("domain_path") or w["domain_text"][:200], "raised": res.get("domain_raised")})
             continue
         piece, size = [], 0
-        for c, r in zip(w["cases"], res["results"]):
+        for ci, (c, r) in enumerate(zip(w["cases"], res["results"])):
             text = r.get("text", c.get("text"))
             lit = rcase_lit(text, r)
             dist[c["kind"]] = dist.get(c["kind"], 0) + 1
@@ -161,7 +176,8 @@ def run(args):
                 sizes["empty_objects"] += (not d["objects"])
             repr_failures += r.get("repr_roundtrip_failures", [])
             single = dict(w)
-            single["cases"] = [c]
+            # a world run with one exporter object and one path: the replay runs the problems before this one too
+            single["cases"] = [{k: v for k, v in x.items() if k != "desc"} for x in w["cases"][:ci]] + [c] if w.get("reuse") else [c]
             cases.append({"lit": rworld_lit(res["vocab"], [lit]),
                           "input": {"world": single, "implementation": {k: v for k, v in r.items() if k not in ("text", "nums", "reprs")}},
                           "nontrivial": c["nontrivial"], "witness_of": c.get("witness_of"), "klass": c.get("klass")})
